@@ -51,6 +51,18 @@ Theorem C12_time_coarse : forall k n, 0 <= k <= 6 -> 0 < n -> n * 10 ^ (6 - k) <
 Proof. exact time_us_coarse. Qed.
 Print Assumptions C12_time_coarse.
 
+(* seconds plus microseconds: a legacy pcap record (tv_sec, tv_usec) -- and a pcapng packet whose interface has if_tsoffset = s and microsecond
+   ticks below one second -- is exported as s * 10^6 + u, for every second of the 32-bit field but the last (2106-02-07) *)
+Theorem C12_time_seconds_and_microseconds : forall s u, 0 <= s <= 4294967294 -> 0 <= u < 1000000 -> time_us u 1000000 s = Some (s * 1000000 + u).
+Proof. exact time_us_sec_micro. Qed.
+Print Assumptions C12_time_seconds_and_microseconds.
+
+(* -l: the same instant from a microsecond legacy file, a nanosecond legacy file and a microsecond pcapng *)
+Theorem C12_time_legacy : forall sec u, 0 <= sec -> 0 <= u < 1000000 -> 0 < sec * 1000000 + u < 2 ^ 51 ->
+  legacy_us false sec u = Some (sec * 1000000 + u) /\ legacy_us true sec (u * 1000) = Some (sec * 1000000 + u) /\ time_us (sec * 1000000 + u) 1000000 0 = Some (sec * 1000000 + u).
+Proof. exact legacy_all. Qed.
+Print Assumptions C12_time_legacy.
+
 (* non-vacuity and the finding repaired by 8eef5f1: an instant in 2039 at if_tsresol 7, and 2^-20 ticks *)
 Example C12_time_example : time_us 21797302000623990 10000000 0 = Some 2179730200062399 /\ time_us (1700000000 * 2 ^ 20 + 2 ^ 19) (2 ^ 20) 0 = Some 1700000000500000.
 Proof. vm_compute. split; reflexivity. Qed.
